@@ -1,3 +1,93 @@
+(* Properties/C11.v — ALWAYS_MERGE distributes one shared option over all merged destinations.
+   Only statements closed by `exact`, each followed by Print Assumptions. *)
 From SPV Require Import Base.Str Model.Merge Model.MergeSpec Gen.FactsBool Gen.FactsMerge Proofs.MergeProofs.
-Example C11_nonvacuous : 1 = 1.
-Proof. reflexivity. Qed.
+
+(* Scalar kinds (int, float, str, bool, enum), EVERY n >= 2, EVERY token list, every layout in which the first registered
+   wrapper is among the least nested (flat registrations, members of a registered class, ...): the model - instantiated with
+   the regenerated chains of duplicate_if_needed / FieldWrapper.default / get_arg_options / merge - meets the spec:
+   absent -> every destination its default (no default: rejected); one value -> all get it; n values -> the i-th registered
+   destination gets the i-th; any other count -> InconsistentArgumentError; an unreadable token -> exit 2. *)
+Theorem C11_scalar : forall dests k cd cli,
+  layout_ok dests -> 2 <= List.length dests -> scalar_kind k = true ->
+  (level (hd "" dests) <> 1 -> cd <> None) ->
+  (forall d, cd = Some d -> typed_default k d = true) ->
+  meets (spec_expect k (repeat cd (List.length dests)) cli)
+        (run_gen dests k cd (repeat None (List.length dests)) cli).
+Proof. exact scalar_meets_spec. Qed.
+Print Assumptions C11_scalar.
+
+(* the same rule on the values that reached the action, by case analysis on their number - no bound on n *)
+Theorem C11_scalar_count_rule : forall n k vals,
+  2 <= n -> scalar_kind k = true -> forallb scalar_val vals = true ->
+  duplicate_gen n k vals =
+  match vals with
+  | [v] => Ok (repeat v n)
+  | _ => if Nat.eqb (List.length vals) n then Ok vals else Err Inconsistent
+  end.
+Proof. exact scalar_count_rule. Qed.
+Print Assumptions C11_scalar_count_rule.
+
+(* destinations stay in registration order through _fix_conflict_merge / DataclassWrapper.merge *)
+Theorem C11_merge_order : forall d0 rest,
+  NoDup (d0 :: rest) -> (forall d, In d rest -> level d0 <= level d) ->
+  fix_conflict_merge_gen (d0 :: rest) = Ok (d0 :: rest).
+Proof. exact merge_order. Qed.
+Print Assumptions C11_merge_order.
+
+(* ... but only when the first registered wrapper is among the least nested: otherwise set-up raises ValueError (defect #20) *)
+Theorem C11_merge_order_refuted :
+  exists dests, NoDup dests /\ fix_conflict_merge_gen dests = Err (Raise "ValueError").
+Proof. exact merge_order_refuted. Qed.
+Print Assumptions C11_merge_order_refuted.
+
+(* container kinds: the full-strength statement is FALSE of the faithful model *)
+Theorem C11_container_full_refuted : ~ container_full_statement.
+Proof. exact container_full_refuted. Qed.
+Print Assumptions C11_container_full_refuted.
+
+(* the four witnesses: list default of length n dealt element-wise; `--xs 7` delivers the scalar 7; `--t 3 4` (n=2)
+   raises TypeError; `--t (3,4,5)` accepted for Tuple[int,int] *)
+Theorem C11_container_witnesses :
+  ~ meets (spec_expect (KList EInt) [Some (VList [VInt 1; VInt 2]); Some (VList [VInt 1; VInt 2])] None) w_dealt
+  /\ ~ meets (spec_expect (KList EInt) [Some (VList []); Some (VList [])] (Some [t7])) w_bare
+  /\ ~ meets (spec_expect (KTuple EInt None) [Some (VTuple []); Some (VTuple [])] (Some [t3; t4])) w_type
+  /\ ~ meets (spec_expect (KTuple EInt (Some 2)) [Some (VTuple [VInt 1; VInt 2]); Some (VTuple [VInt 1; VInt 2])] (Some [t345])) w_arity.
+Proof. exact container_witnesses. Qed.
+Print Assumptions C11_container_witnesses.
+
+(* container kinds, what does hold: bracketed literals of the item type (right arity for fixed tuples), and a default that
+   the packaging treats as one value (a list default of length n at top level is excluded: `default_safe`) *)
+Theorem C11_container_partial : forall dests k cd cli,
+  layout_ok dests -> 2 <= List.length dests -> scalar_kind k = false ->
+  (level (hd "" dests) <> 1 -> cd <> None) ->
+  (forall d, cd = Some d -> typed_default k d = true) ->
+  (level (hd "" dests) = 1 -> forall d, cd = Some d -> default_safe (List.length dests) k d = true) ->
+  cli_bracketed k cli = true ->
+  meets (spec_expect k (repeat cd (List.length dests)) cli)
+        (run_gen dests k cd (repeat None (List.length dests)) cli).
+Proof. exact container_partial. Qed.
+Print Assumptions C11_container_partial.
+
+(* `meets` is what the correspondence run evaluates on the implementation's observed behaviour *)
+Theorem C11_meets_is_checked : forall e r, meets e r -> expect_allows e r = true.
+Proof. exact meets_allows. Qed.
+Print Assumptions C11_meets_is_checked.
+
+(* non-vacuity: concrete inputs inside the theorems' domains, and what the model answers on them *)
+Example C11_nonvacuous :
+  (* three members of one registered class, an int field: 3 values go to the 3 destinations in registration order *)
+  run_gen ["t.m0"; "t.m1"; "t.m2"] KInt (Some (VInt 5)) [None; None; None]
+          (Some [mktok "1" (Some (LInt 1)); mktok "-2" (Some (LInt (-2))); mktok "30" (Some (LInt 30))])
+    = Ok [VInt 1; VInt (-2); VInt 30]
+  /\ scalar_kind KInt = true /\ typed_default KInt (VInt 5) = true
+  (* two values for three destinations *)
+  /\ run_gen ["d0"; "d1"; "d2"] KBool (Some (VBool false)) [None; None; None]
+             (Some [mktok "Yes" None; mktok "0" (Some (LInt 0))]) = Err Inconsistent
+  (* a bracketed list per destination, default of length 3 <> n = 2 *)
+  /\ run_gen ["d0"; "d1"] (KList EInt) (Some (VList [VInt 1; VInt 2; VInt 3])) [None; None]
+             (Some [mktok "[7,8]" (Some (LSeq false [LInt 7; LInt 8])); mktok "[]" (Some (LSeq false []))])
+       = Ok [VList [VInt 7; VInt 8]; VList []]
+  /\ cli_bracketed (KList EInt) (Some [mktok "[7,8]" (Some (LSeq false [LInt 7; LInt 8])); mktok "[]" (Some (LSeq false []))]) = true
+  /\ default_safe 2 (KList EInt) (VList [VInt 1; VInt 2; VInt 3]) = true
+  /\ fix_conflict_merge_gen ["top"; "t.m0"; "t.m1"] = Ok ["top"; "t.m0"; "t.m1"].
+Proof. vm_compute. repeat split; reflexivity. Qed.
